@@ -46,13 +46,14 @@ size_t GB;           /* arbitrary byte index into a socket address */
  * measured); sub-structs are the units of the assigns clauses: G.cl (close path), G.ep (epoll interest), G.tx (send/sendto), G.rx (receive path). */
 struct iora_udp_ghost {
   struct { unsigned closeCb_calls; SessionId closeCb_sid; bool closeCb_erased; bool closeCb_locked; TransportError closeCb_why;
-           unsigned close_calls; int close_fd; unsigned delEpoll_calls; int delEpoll_fd; unsigned delEpoll_closes_before; } cl;
+           unsigned close_calls; int close_fd; unsigned delEpoll_calls; int delEpoll_fd; unsigned delEpoll_closes_before; unsigned closeCb_calls_w; /* callbacks for the witness id GSID */ } cl;
   struct { unsigned modEpoll_calls; int modEpoll_fd; uint32_t modEpoll_ev; } ep;
   struct { size_t front_lo; size_t calls, ok, again, err; bool is_sendto; int fd; const uint8_t *p; int n; socklen_t tolen; uint8_t to_gb; int flags; int ret; int err_no;
            size_t w_calls; const uint8_t *w_p; int w_n; socklen_t w_tolen; uint8_t w_to_gb; } tx;
   struct { unsigned acceptCb_calls; SessionId acceptCb_sid; bool acceptCb_locked; unsigned dataCb_calls; SessionId dataCb_sid; const uint8_t *dataCb_p; size_t dataCb_n; bool dataCb_locked;
            unsigned errorCb_calls; unsigned acceptCb_datas_before; TransportAddress acceptCb_addr; uint8_t dataCb_byte_gk; bool dataCb_sess_ok; MonoTime dataCb_time;
            unsigned connectCb_calls; SessionId connectCb_sid; bool connectCb_locked; } rx;
+  struct { MonoTime now_first; unsigned now_calls; } misc;
   struct { unsigned calls; int fd; uint8_t *buf; int buflen; int ret; size_t dgram_len; uint8_t byte_gk; socklen_t fromlen; uint8_t from_gb; iora_strid key; unsigned key_calls; bool key_of_source; } rc;
 } G;
 /* close callback */
@@ -150,8 +151,11 @@ typedef struct Session { SessionId id; Role role; int fd; ListenerId owner; sock
   .wq = {0}, .wantWrite = false, .closed = false, .created = 0, .lastActivity = 0, .connectPending = false, .connectStart = 0, .lastWriteProgress = 0 })
 typedef struct { SessionId sid; iora_vec payload; } SendReq;
 typedef struct { SessionId sid; ListenerId lid; iora_strid host; uint16_t port; } ViaReq;
-typedef struct { size_t ioReadChunk; size_t maxWriteQueue; bool closeOnBackpressure; bool useEdgeTriggered; size_t maxSessions; } TransportConfig;
-typedef struct { uint64_t accepted, connected, closed, errors, bytesIn, bytesOut, backpressureCloses; size_t sessionsCurrent, sessionsPeak; } AtomicStats;
+/* chrono durations (idleTimeout, maxConnAge, connectTimeout, writeStallTimeout) and time points are tick counts of ONE common unit (unit conversion between
+ * seconds/milliseconds/steady_clock ticks is not modelled) */
+typedef struct { size_t ioReadChunk; size_t maxWriteQueue; bool closeOnBackpressure; bool useEdgeTriggered; size_t maxSessions;
+  int64_t idleTimeout, maxConnAge, connectTimeout, writeStallTimeout; int soRcvBuf, soSndBuf; } TransportConfig;
+typedef struct { uint64_t accepted, connected, closed, errors, bytesIn, bytesOut, backpressureCloses, gcRuns, gcClosedIdle, gcClosedAged; size_t sessionsCurrent, sessionsPeak; } AtomicStats;
 
 /* ---- witness maps ---- */
 typedef struct { bool has; SessionId val; } iora_map1_peer;                    /* _peerIndex restricted to GPK */
@@ -172,7 +176,16 @@ static inline void iora_map1_peer_erase(iora_map1_peer *m, iora_strid k) { if (k
 static inline void iora_map1_peer_emplace(iora_map1_peer *m, iora_strid k, SessionId v) { if (k == GPK && !m->has) { m->has = true; m->val = v; } }
 
 /* LKS: the session table is mutated only with _sessionRwMutex held (udp_engine.hpp lock-ordering comment) */
-static inline bool iora_sess_wlock_held(const iora_map1_sess *m);      /* the _sessionRwMutex of the engine that contains *m (defined below) */
+#ifdef IORA_UDP_TABLE3
+/* BOUNDED stand-in for code that ITERATES over _sessions (shutdownDrain, runGc): the whole table, at most IORA_TBL_N = 3 sessions, as real objects.
+ * Keys are the sessions' own ids (precondition: distinct).  erase/clear destroy the objects (unique_ptr), so a later use is a pointer obligation. */
+#define IORA_TBL_N 3
+typedef struct { bool present[IORA_TBL_N]; Session *e[IORA_TBL_N]; } iora_tbl3;
+typedef iora_tbl3 IORA_SESS_T;
+#else
+typedef iora_map1_sess IORA_SESS_T;
+#endif
+static inline bool iora_sess_wlock_held(const IORA_SESS_T *m);      /* the _sessionRwMutex of the engine that contains *m (defined below) */
 #define IORA_SESS_GUARDED(m) IORA_ASSERT(iora_sess_wlock_held(m), "LKS _sessions mutated with _sessionRwMutex held")
 static inline iora_sess_it iora_map1_sess_find(const iora_map1_sess *m, SessionId k)
 { iora_sess_it it; if (k == GSID) { it.end = !m->has; it.second = m->val; } else { it.end = nondet_bool(); it.second = m->other; } return it; }
@@ -192,20 +205,60 @@ static inline iora_lst_it iora_map1_lst_find(const iora_map1_lst *m, ListenerId 
 { iora_lst_it it; if (k == GLID) { it.end = !m->has; it.second = m->val; } else { it.end = nondet_bool(); it.second = m->other; } return it; }
 
 typedef struct UdpEngine { TransportConfig _config; AtomicStats _atomicStats; int _epollFd; iora_mutex _cbMutex; Callbacks _cbs; iora_mutex _sessionRwMutex;
-  iora_map1_lst _listeners; iora_map1_sess _sessions; iora_map1_peer _peerIndex; iora_map1_tags _tags; SessionId _nextSessionId; } UdpEngine;
+  iora_map1_lst _listeners; IORA_SESS_T _sessions; iora_map1_peer _peerIndex; iora_map1_tags _tags; SessionId _nextSessionId; } UdpEngine;
 /* R11 lock guards, sequential model.  `std::lock_guard<std::mutex> g(M);` / `std::unique_lock<std::shared_mutex> g(M);` -> IORA_LOCK_GUARD(g, M);
  * the unit plugin inserts IORA_UNLOCK_GUARD(g, M); at the end of the guard's block.  Direct flag access on purpose: the pointer-carrying
  * iora_ulock of iora_monitor.h costs ~20 s of solver time per guard under DFCC (measured), this form 0.1 s. */
-#define IORA_LOCK_GUARD(g, M) do { IORA_ASSERT(!(M).held, "LK1 mutex is not already held by this thread when it is locked (self-deadlock)"); (M).held = 1; } while (0)
-#define IORA_UNLOCK_GUARD(g, M) do { (M).held = 0; } while (0)
+#define IORA_LOCK_GUARD(g, M) { IORA_ASSERT(!(M).held, "LK1 mutex is not already held by this thread when it is locked (self-deadlock)"); (M).held = 1; }
+#define IORA_UNLOCK_GUARD(g, M) { (M).held = 0; }
 #define IORA_NO_LOCK_HELD(e) (!(e)->_cbMutex.held && !(e)->_sessionRwMutex.held)
 /* a witness session map only ever lives inside a UdpEngine (container-of; a pointer field would not survive CBMC's value-set analysis) */
-static inline bool iora_sess_wlock_held(const iora_map1_sess *m)
+static inline bool iora_sess_wlock_held(const IORA_SESS_T *m)
 { return ((const UdpEngine *)((const char *)m - offsetof(UdpEngine, _sessions)))->_sessionRwMutex.held; }
+#ifdef IORA_UDP_TABLE3
+static inline bool iora_tbl3_contains(const iora_tbl3 *m, SessionId k)
+{ return (m->present[0] && m->e[0]->id == k) || (m->present[1] && m->e[1]->id == k) || (m->present[2] && m->e[2]->id == k); }
+static inline iora_sess_it iora_tbl3_find(const iora_tbl3 *m, SessionId k)
+{ iora_sess_it it = { 1, NULL };
+  if (m->present[0] && m->e[0]->id == k) { it.end = 0; it.second = m->e[0]; }
+  else if (m->present[1] && m->e[1]->id == k) { it.end = 0; it.second = m->e[1]; }
+  else if (m->present[2] && m->e[2]->id == k) { it.end = 0; it.second = m->e[2]; }
+  return it; }
+static inline void iora_tbl3_erase_slot(iora_tbl3 *m, unsigned i) { m->present[i] = false; free(m->e[i]); }
+static inline void iora_tbl3_erase(iora_tbl3 *m, SessionId k)
+{ IORA_SESS_GUARDED(m);
+  if (m->present[0] && m->e[0]->id == k) iora_tbl3_erase_slot(m, 0);
+  else if (m->present[1] && m->e[1]->id == k) iora_tbl3_erase_slot(m, 1);
+  else if (m->present[2] && m->e[2]->id == k) iora_tbl3_erase_slot(m, 2); }
+static inline void iora_tbl3_clear(iora_tbl3 *m)
+{ IORA_SESS_GUARDED(m); if (m->present[0]) iora_tbl3_erase_slot(m, 0); if (m->present[1]) iora_tbl3_erase_slot(m, 1); if (m->present[2]) iora_tbl3_erase_slot(m, 2); }
+static inline size_t iora_tbl3_size(const iora_tbl3 *m) { return (size_t)m->present[0] + (size_t)m->present[1] + (size_t)m->present[2]; }
+static inline bool iora_tbl3_present(const iora_tbl3 *m, size_t i) { return m->present[i]; }
+static inline Session *iora_tbl3_at(const iora_tbl3 *m, size_t i) { IORA_ASSERT(i < IORA_TBL_N && m->present[i], "map iteration yields live entries only"); return m->e[i]; }
+/* std::vector<Session*> / std::vector<SessionId> filled from that table: at most IORA_TBL_N elements */
+typedef struct { size_t n; Session *v[IORA_TBL_N]; } iora_ptrvec3;
+typedef struct { size_t n; SessionId v[IORA_TBL_N]; } iora_idvec3;
+#define iora_ptrvec3_DEFAULT ((iora_ptrvec3){0, {0}})
+#define iora_idvec3_DEFAULT ((iora_idvec3){0, {0}})
+static inline void iora_ptrvec3_reserve(iora_ptrvec3 *v, size_t n) { (void)v; (void)n; }
+static inline void iora_idvec3_reserve(iora_idvec3 *v, size_t n) { (void)v; (void)n; }
+static inline void iora_ptrvec3_push_back(iora_ptrvec3 *v, Session *s) { IORA_ASSERT(v->n < IORA_TBL_N, "bounded stand-in: at most 3 elements"); v->v[v->n++] = s; }
+static inline void iora_idvec3_push_back(iora_idvec3 *v, SessionId s) { IORA_ASSERT(v->n < IORA_TBL_N, "bounded stand-in: at most 3 elements"); v->v[v->n++] = s; }
+#define IORA_SESS_CONTAINS(self, sid) iora_tbl3_contains(&(self)->_sessions, (sid))
+#else
+#define IORA_SESS_CONTAINS(self, sid) ((sid) == GSID && (self)->_sessions.has)
+#endif
+/* unit-specific observation hooks of the callback stubs (default: none) */
+#ifndef IORA_ON_CLOSE_HOOK
+#define IORA_ON_CLOSE_HOOK(self, sid) ((void)0)
+#endif
+#ifndef IORA_ON_DATA_HOOK
+#define IORA_ON_DATA_HOOK(self, sid, p, n) ((void)0)
+#endif
 
 /* ---- ghost record of the environment ---- */
 #define IORA_SAT 1000000u      /* ghost counters saturate far above anything a contract compares them with */
-#define IORA_BUMP(c) do { if ((c) < IORA_SAT) (c)++; } while (0)
+#define IORA_BUMP(c) ((void)((c) < IORA_SAT ? (c)++ : 0))      /* an expression, not do-while(0): goto-instrument counts that as an inner loop */
 /* message strings are interned; literal text is not modelled (R8/R20: message text is lost) */
 #define iora_str_lit(lit) ((iora_strid)sizeof(lit))
 #define iora_str_cat(lit, id) ((iora_strid)sizeof(lit) + (id))
@@ -225,15 +278,21 @@ static inline int iora_tx_common(bool is_sendto, int fd, const uint8_t *p, int n
 static inline int iora_sys_send(int fd, const uint8_t *p, int n, int flags) { return iora_tx_common(0, fd, p, n, flags, NULL, 0); }
 static inline int iora_sys_sendto(int fd, const uint8_t *p, int n, int flags, const sockaddr *to, socklen_t tolen) { return iora_tx_common(1, fd, p, n, flags, to, tolen); }
 
-static inline MonoTime iora_mono_now(void) { return nondet_i64(); }
+/* steady_clock::now(): some non-negative tick count (A); units that judge time-outs record the first value read */
+static inline MonoTime iora_mono_now(void)
+{ MonoTime t = nondet_i64(); IORA_ASSUME(t >= 0);
+#ifdef IORA_RECORD_NOW
+  if (G.misc.now_calls == 0) G.misc.now_first = t; IORA_BUMP(G.misc.now_calls);
+#endif
+  return t; }
 static inline iora_strid UdpEngine_lastErr(UdpEngine *self) { (void)self; return nondet_u64(); }
 
 /* user callbacks: may do anything to the application, re-enter the engine only through the command queue (A), hence change no engine state */
 static inline void iora_cb_onClose_call(UdpEngine *self, iora_cb_onClose cb, SessionId sid, TransportError why, iora_strid m, int err)
 { (void)m; (void)err; IORA_ASSERT(cb.set, "std::function called only when non-empty");
   IORA_BUMP(G_closeCb_calls); G_closeCb_sid = sid; G_closeCb_why = why;
-  G_closeCb_erased = !(sid == GSID && self->_sessions.has);        /* was the session already out of the table when the application heard of the close? */
-  G_closeCb_locked = !IORA_NO_LOCK_HELD(self); }
+  G_closeCb_erased = !IORA_SESS_CONTAINS(self, sid);        /* was the session already out of the table when the application heard of the close? */
+  G_closeCb_locked = !IORA_NO_LOCK_HELD(self); if (sid == GSID) IORA_BUMP(G.cl.closeCb_calls_w); IORA_ON_CLOSE_HOOK(self, sid); }
 static inline void iora_cb_onError_call(UdpEngine *self, iora_cb_onError cb, TransportError e)
 { (void)self; (void)e; IORA_ASSERT(cb.set, "std::function called only when non-empty"); IORA_BUMP(G_errorCb_calls); }
 
@@ -275,14 +334,23 @@ static inline void iora_cb_onConnect_call(UdpEngine *self, iora_cb_onConnect cb,
 { (void)a; IORA_ASSERT(cb.set, "std::function called only when non-empty"); IORA_BUMP(G.rx.connectCb_calls); G.rx.connectCb_sid = sid; G.rx.connectCb_locked = !IORA_NO_LOCK_HELD(self); }
 static inline void iora_cb_onData_call(UdpEngine *self, iora_cb_onData cb, SessionId sid, const uint8_t *p, size_t n, MonoTime t)
 { IORA_ASSERT(cb.set, "std::function called only when non-empty"); IORA_BUMP(G.rx.dataCb_calls); G.rx.dataCb_sid = sid; G.rx.dataCb_p = p; G.rx.dataCb_n = n; G.rx.dataCb_time = t;
-  G.rx.dataCb_byte_gk = GK < n ? p[GK] : 0; G.rx.dataCb_locked = !IORA_NO_LOCK_HELD(self);
+#ifndef IORA_RX_CONTENT_ABSTRACT
+  G.rx.dataCb_byte_gk = GK < n ? p[GK] : 0;
+#endif
+  G.rx.dataCb_locked = !IORA_NO_LOCK_HELD(self);
   /* the session the event is announced on is, at this moment, in the table, open, and keyed by the witness peer key */
-  G.rx.dataCb_sess_ok = (sid == GSID) ? (self->_sessions.has && self->_sessions.val != NULL && !self->_sessions.val->closed && self->_sessions.val->pkey == GPK) : true; }
+#ifndef IORA_UDP_TABLE3
+  G.rx.dataCb_sess_ok = (sid == GSID) ? (self->_sessions.has && self->_sessions.val != NULL && !self->_sessions.val->closed && self->_sessions.val->pkey == GPK) : true;
+#endif
+  IORA_ON_DATA_HOOK(self, sid, p, n); }
 
 /* engine helpers that are not under contract in these units (epoll bookkeeping) */
 static inline void UdpEngine_delEpoll(UdpEngine *self, int fd)
 { (void)self; IORA_BUMP(G_delEpoll_calls); G_delEpoll_fd = fd; G_delEpoll_closes_before = G_close_calls; }
 static inline bool UdpEngine_modEpoll(UdpEngine *self, int fd, uint32_t ev)
 { (void)self; IORA_BUMP(G_modEpoll_calls); G_modEpoll_fd = fd; G_modEpoll_ev = ev; return nondet_bool(); }
-static inline int iora_sys_close(int fd) { IORA_BUMP(G_close_calls); G_close_fd = fd; return 0; }
+#ifndef IORA_ON_SYS_CLOSE_HOOK
+#define IORA_ON_SYS_CLOSE_HOOK(fd) ((void)0)
+#endif
+static inline int iora_sys_close(int fd) { IORA_BUMP(G_close_calls); G_close_fd = fd; IORA_ON_SYS_CLOSE_HOOK(fd); return 0; }
 #endif
